@@ -162,8 +162,24 @@ def run(P, R, tier):
         for attr in ('length', 'area'):
             f = ci.members[attr][1]
             rets = [s for s in walk_own(f.node) if isinstance(s, ast.Return)]
-            ok = bool(rets) and all(norm(s.value) in ('0.0', '0') or norm(s.value).startswith('np.zeros(len(self)') for s in rets)
+            def zero(v_):
+                t_ = norm(v_)
+                if t_ in ('0.0', '0') or t_.startswith('np.zeros(len(self)'):
+                    return True, False
+                if isinstance(v_, ast.Call) and isinstance(v_.func, ast.Attribute) and norm(v_.func.value) == 'self':
+                    c2, m2 = P.lookup(ci, v_.func.attr)
+                    if m2 is not None and m2[0] == 'func':
+                        h = m2[1]
+                        z = any(isinstance(x, ast.Assign) and norm(x.value).startswith('np.zeros(len(self)') for x in walk_own(h.node))
+                        nn = any(isinstance(x, ast.Assign) and isinstance(x.targets[0], ast.Subscript) and 'isna()' in norm(x.targets[0].slice) and 'nan' in norm(x.value) for x in walk_own(h.node))
+                        return z, nn
+                return False, False
+            zs = [zero(s.value) for s in rets]
+            ok = bool(rets) and all(z for z, _ in zs)
             R.check(ok, 'C14.c', f, rets[0] if rets else None, f'{cn}.{attr} is 0', f'{cn}.{attr} is `{norm(rets[0].value) if rets else None}`, expected 0')
+            if cn == 'PointArray':
+                R.check(bool(zs) and all(nn for _, nn in zs), 'C14.c', f, rets[0] if rets else None, f'{cn}.{attr}: missing elements report NaN (like the kinds that have this measure)',
+                        f'{cn}.{attr} reports 0.0 for missing elements: a missing element gives NaN for every other kind', construct=f'{cn}.{attr} missing -> NaN')
 
 
 def _check_measure(P, R, site, cls, mod, attr, v, array):
